@@ -83,3 +83,18 @@ def loop_copy(xs: list[fp.Real]):
 
 ALL = [copy_then_redefine, copy_in_loop, alias_fold, fold_under_ctx, dead_with_effect, branch_redefine, copy_chain,
        fold_signed_zero, fold_cond, loop_copy]
+
+@fp.fpy
+def phi_arg_live(a0: fp.Real, a1: fp.Real, a2: list[fp.Real]):
+    a0 = ((len([a1]) * 0.3) - 7)
+    (v105, v106) = ((a0 if any([(255 == 7) for c107 in a2]) else abs(a1)), a0)
+    a1 = (100 - (len(a2) - len(a2)))
+    with fp.MPFixedContext(0, fp.RM.RNE):
+        if (1.5 >= v105):
+            a1 = (v105 + 255)
+        else:
+            a0 = ((-(v106 + a0)) + (len(a2) + (0.3 - v105)))
+        v108 = fp.fma(v105, ((a0 * a1) if (not (0.001 <= a1)) else (v105 / v105)), (a1 - (v106 + 0.3)))
+    return ((max(1e3, 1) + fp.fma(v105, v106, 255)), ((a1 <= 10) and (a1 != v105)), a2, [3, a1, v106])
+
+ALL.append(phi_arg_live)
